@@ -18,6 +18,7 @@
 //	             the package-level functions of those names, the arguments are exactly the parameters / locals in that
 //	             order, and S is the function registered in decodersSR under the SAME key.  Nothing else is accepted: no
 //	             extra statement, no other error test, no other reader, no other callee.
+//	CONTAINER-TWIN / CONTAINER-BODY / PURE-TWIN / RAW-BODY   see containerClass and leafClass below
 //	SEPARATE     everything else (listed by name; the check holds an explicit table of which of them have a pair theorem)
 //
 // and for the SR decoder S of every pair whether it is RELATIVE, the hypothesis `local_prog` of C03_delegate_sound /
@@ -500,6 +501,9 @@ type sfEq struct {
 	ia, ib *types.Info
 	m, rev map[types.Object]types.Object
 	swap   map[types.Object]types.Object
+	data   types.Object // raw-body class: this local of the first function stands for `sr.ReadBytes(hdr.payloadLen())` in the second
+	sr, hd types.Object // ... with sr / hdr the parameters of the second function
+	nData  int
 	enc    bool // Encode <-> EncodeSW methods of the same receiver type, EncodeHeader <-> EncodeHeaderSW, EncodeContainer <-> EncodeContainerSW
 }
 
@@ -618,6 +622,25 @@ func (q *sfEq) node(a, b ast.Node) bool {
 }
 
 func (q *sfEq) node0(a, b ast.Node) bool {
+	if q.data != nil && !sfNilNode(a) && !sfNilNode(b) {
+		if id, ok := a.(*ast.Ident); ok && q.ia.Uses[id] == q.data {
+			q.nData++
+			c, ok := b.(*ast.CallExpr)
+			if !ok || len(c.Args) != 1 {
+				return false
+			}
+			se, ok := c.Fun.(*ast.SelectorExpr)
+			if !ok || se.Sel.Name != "ReadBytes" || !sfIs(q.ib, se.X, q.sr) {
+				return false
+			}
+			pc, ok := c.Args[0].(*ast.CallExpr)
+			if !ok || len(pc.Args) != 0 {
+				return false
+			}
+			ps, ok := pc.Fun.(*ast.SelectorExpr)
+			return ok && ps.Sel.Name == "payloadLen" && sfIs(q.ib, ps.X, q.hd)
+		}
+	}
 	if sfNilNode(a) || sfNilNode(b) {
 		return sfNilNode(a) && sfNilNode(b)
 	}
@@ -779,6 +802,92 @@ func (w *sfWorld) twin(r, s *types.Func, rStmts []ast.Stmt, srObj types.Object) 
 		return true, true
 	}
 	return false, false
+}
+
+// usesObj: does the function body mention obj?
+func sfUses(info *types.Info, body *ast.BlockStmt, obj types.Object) int {
+	n := 0
+	ast.Inspect(body, func(nd ast.Node) bool {
+		if id, ok := nd.(*ast.Ident); ok && info.Uses[id] == obj {
+			n++
+		}
+		return true
+	})
+	return n
+}
+
+// leafClass: "pure-twin": neither decoder touches its reader and the two bodies are the same text up to local names;
+// "raw-body": R is `data, err := readBoxBody(r, hdr); if err != nil { return nil, err }; REST` and S is REST with
+// `sr.ReadBytes(hdr.payloadLen())` where R has `data` (exactly once) and `sr.AccError()` where R's final return has nil,
+// S not using its reader otherwise.
+func (w *sfWorld) leafClass(r, s *types.Func) string {
+	rd, sd := w.decls[r], w.decls[s]
+	ri, si := w.infoOf[r], w.infoOf[s]
+	if rd == nil || sd == nil || rd.Body == nil || sd.Body == nil {
+		return ""
+	}
+	rs, ss := r.Type().(*types.Signature), s.Type().(*types.Signature)
+	if rs.Params().Len() != 3 || ss.Params().Len() != 3 || !sfIsSliceReader(ss.Params().At(2).Type()) || !sfTypeIs(rs.Params().At(2).Type(), "io", "Reader") {
+		return ""
+	}
+	mk := func() *sfEq {
+		q := &sfEq{w: w, ia: ri, ib: si, m: map[types.Object]types.Object{}, rev: map[types.Object]types.Object{}}
+		for i := 0; i < 3; i++ {
+			q.m[rs.Params().At(i)], q.rev[ss.Params().At(i)] = ss.Params().At(i), rs.Params().At(i)
+		}
+		return q
+	}
+	if sfUses(ri, rd.Body, rs.Params().At(2)) == 0 && sfUses(si, sd.Body, ss.Params().At(2)) == 0 {
+		if mk().stmts(rd.Body.List, sd.Body.List) {
+			return "pure-twin"
+		}
+		return ""
+	}
+	st := rd.Body.List
+	if len(st) < 3 || len(st)-2 != len(sd.Body.List) {
+		return ""
+	}
+	a1, ok := st[0].(*ast.AssignStmt)
+	if !ok || a1.Tok != token.DEFINE || len(a1.Lhs) != 2 || len(a1.Rhs) != 1 {
+		return ""
+	}
+	c1, ok := a1.Rhs[0].(*ast.CallExpr)
+	if !ok || !sfFuncIs(sfCallee(ri, c1), "mp4", "readBoxBody") || len(c1.Args) != 2 || !sfIs(ri, c1.Args[0], rs.Params().At(2)) || !sfIs(ri, c1.Args[1], rs.Params().At(0)) {
+		return ""
+	}
+	dataId, errId := sfIdent(a1.Lhs[0]), sfIdent(a1.Lhs[1])
+	if dataId == nil || errId == nil || ri.Defs[dataId] == nil || ri.Defs[errId] == nil {
+		return ""
+	}
+	i2, ok := st[1].(*ast.IfStmt)
+	if !ok || i2.Init != nil || i2.Else != nil || !sfIsErrNotNil(ri, i2.Cond, ri.Defs[errId]) || len(i2.Body.List) != 1 || !sfIsErrReturn(ri, i2.Body.List[0], ri.Defs[errId], 2) {
+		return ""
+	}
+	rest, sst := st[2:], sd.Body.List
+	n := len(rest)
+	lr, ok1 := rest[n-1].(*ast.ReturnStmt)
+	ls, ok2 := sst[n-1].(*ast.ReturnStmt)
+	if !ok1 || !ok2 || len(lr.Results) != 2 || len(ls.Results) != 2 || !sfIsNil(ri, lr.Results[1]) {
+		return ""
+	}
+	ac, ok := ls.Results[1].(*ast.CallExpr)
+	if !ok || len(ac.Args) != 0 {
+		return ""
+	}
+	ase, ok := ac.Fun.(*ast.SelectorExpr)
+	if !ok || ase.Sel.Name != "AccError" || !sfIs(si, ase.X, ss.Params().At(2)) {
+		return ""
+	}
+	q := mk()
+	q.data, q.sr, q.hd = ri.Defs[dataId], ss.Params().At(2), ss.Params().At(0)
+	if !q.stmts(rest[:n-1], sst[:n-1]) || !q.node(lr.Results[0], ls.Results[0]) || q.nData != 1 {
+		return ""
+	}
+	// S uses sr exactly twice (ReadBytes, AccError); R uses r once (readBoxBody) and data once
+	if sfUses(si, sd.Body, ss.Params().At(2)) != 2 || sfUses(ri, rd.Body, rs.Params().At(2)) != 1 || sfUses(ri, rd.Body, ri.Defs[dataId]) != 1 {
+		return ""
+	}
+	return "raw-body"
 }
 
 // containerCall: stmt is `x, err := F(hdr, startPos+8, startPos+hdr.Size, rd)` with F the package-level function `name`
@@ -1595,9 +1704,12 @@ func sfExtract(repo string) ([]sfDecFact, []sfEncFact, *sfWorld, error) {
 					f.WhyNot = cwhy
 				}
 				if cl == "" {
+					cl = w.leafClass(r.fn, s.fn)
+				}
+				if cl == "" {
 					f.Class = "separate"
 				} else {
-					f.WhyNot = ""
+					f.Class, f.WhyNot = cl, ""
 				}
 			}
 		}
@@ -1703,7 +1815,7 @@ func sfBool(b bool) string {
 	return "false"
 }
 
-var sfCoqClass = map[string]string{"delegating": "CDelegating", "container-twin": "CContainerTwin", "container-body": "CContainerBody", "separate": "CSeparate"}
+var sfCoqClass = map[string]string{"pure-twin": "CPureTwin", "raw-body": "CRawBody", "delegating": "CDelegating", "container-twin": "CContainerTwin", "container-body": "CContainerBody", "separate": "CSeparate"}
 
 var sfCoqEncClass = map[string]string{"delegating": "EDelegating", "container": "EContainer", "header": "EHeader", "twin": "ETwin", "separate": "ESeparate"}
 
